@@ -35,6 +35,24 @@ pub fn embeddings() -> Vec<(Vec<usize>, Vec<usize>)> {
 }
 
 pub fn c03(out: &mut dyn Write, tier: &str, rng: &mut Rng, st: &mut Stats) {
+    // an environment obtained through `Default` must behave like one from `new()`
+    {
+        let denv: BDDEnv<usize> = Default::default();
+        for (va, vb) in embeddings().iter().take(3) {
+            for _ in 0..60 {
+                let a = from_tt(rng.below(256), va);
+                let b = from_tt(rng.below(256), vb);
+                let op = *rng.pick(&BIN_OPS);
+                let r = bin(&denv, op, Rc::clone(&a), Rc::clone(&b));
+                writeln!(out, "C03|bin|{}|{}|{}|{}|{};{}", op, show(&a), show(&b), show(&r), show(&a), show(&b)).unwrap();
+                let r = denv.not(Rc::clone(&a));
+                writeln!(out, "C03|not|{}|{}|{}", show(&a), show(&r), show(&a)).unwrap();
+                st.hit("op.default-env");
+            }
+        }
+        for s in [0usize, 3] { let r = denv.var(s); writeln!(out, "C03|var|{}|{}|", s, show(&r)).unwrap(); }
+        for v in [false, true] { let r = denv.mk_const(v); writeln!(out, "C03|const|{}|{}|", v as u8, show(&r)).unwrap(); }
+    }
     let env: BDDEnv<usize> = BDDEnv::new();
     let embs = embeddings();
     let exhaustive = tier == "thorough";
@@ -583,7 +601,7 @@ fn unary_functions(tier: &str, rng: &mut Rng) -> Vec<B> {
     } else {
         for _ in 0..1500 { fs.push(from_tt(rng.below(65536), &vars4)); }
     }
-    let nbig = if tier == "thorough" { 20000 } else { 800 };
+    let nbig = if tier == "thorough" { 200000 } else { 800 };
     for _ in 0..nbig {
         let k = 5 + rng.below(2) as usize;
         let vars = rand_vars(rng, k, 12);
